@@ -12,13 +12,14 @@
                            fibres of whole tapes are products  R^(j-1) * A(v)  and therefore equal
      DrawnIsFunctionOfPath (c) bytes consumed = attempts * bytes per attempt
    Biased = TRUE replaces rejection by reduction modulo the range size (not the library): UniformPerAttempt must fail.
-   Emit prints, per instance, the plan replayed on the real functions: bytes per attempt and rejected first draws.
+   With EmitPlans, UniformPerAttempt also prints, per instance, the plan replayed on the real functions (bytes per attempt, rejected
+   first draws) and EmitBoundary the symbolic boundary tapes for cryptographic sizes.
    The instance is chosen through a two-level tree (32 groups) so that the per-instance counting runs on all workers. *)
 EXTENDS Sampler, Json
 CONSTANTS Fam, MaxBound, MaxBits, MaxAttempts, Biased, EmitPlans
 VARIABLES lvl, g, inst, o
 vars == <<lvl, g, inst, o>>
-I(api, p1, p2, p3) == [api |-> api, p1 |-> p1, p2 |-> p2, p3 |-> p3]
+I(api, p1, p2, p3) == SmpI(api, p1, p2, p3)
 W == 0..MaxBound                       \* norm_maximum of a range (range size - 1)
 RangeInstances ==
         {I("random_range", lo, lo + w, 0) : lo \in {0 - 3, 0, 1, 5}, w \in W}
@@ -38,40 +39,12 @@ NG == 32
 ApiIdx(a) == CHOOSE k \in 1..11 : <<"random_max", "random_exact", "getrandbits", "getRandomInteger", "getRandomNBitInteger", "random_range",
                                     "random_range_excl", "getRandomRange", "randrange", "randint", "choice">>[k] = a
 Group(i) == (i.p1 + (3 * i.p2) + i.p3 + (13 * ApiIdx(i.api))) % NG
-\* ------------------------------------------------------------------ instance -> sampler, result, documented range
-NumChoices(i) == CASE i.api = "randrange" -> SmpCeilDiv(i.p2 - i.p1, i.p3)
-                   [] i.api = "randint" -> (i.p2 + 1) - i.p1
-                   [] i.api = "choice" -> i.p1
-\* the documented range as [lo, step, size]: element j is lo + step * j
-Rng(i) == CASE i.api = "random_max" -> [lo |-> 0, step |-> 1, size |-> 2 ^ i.p1]
-            [] i.api = "random_exact" -> [lo |-> 2 ^ (i.p1 - 1), step |-> 1, size |-> 2 ^ (i.p1 - 1)]
-            [] i.api = "random_range" -> [lo |-> i.p1, step |-> 1, size |-> (i.p2 - i.p1) + 1]
-            [] i.api = "random_range_excl" -> [lo |-> i.p1, step |-> 1, size |-> i.p2 - i.p1]
-            [] i.api = "getrandbits" -> [lo |-> 0, step |-> 1, size |-> 2 ^ i.p1]
-            [] i.api = "randrange" -> [lo |-> i.p1, step |-> i.p3, size |-> NumChoices(i)]
-            [] i.api = "randint" -> [lo |-> i.p1, step |-> 1, size |-> NumChoices(i)]
-            [] i.api = "choice" -> [lo |-> 0, step |-> 1, size |-> i.p1]
-            [] i.api = "getRandomInteger" -> [lo |-> 0, step |-> 1, size |-> 2 ^ i.p1]
-            [] i.api = "getRandomRange" -> [lo |-> i.p1, step |-> 1, size |-> i.p2 - i.p1]
-            [] i.api = "getRandomNBitInteger" -> [lo |-> 2 ^ (i.p1 - 1), step |-> 1, size |-> 2 ^ (i.p1 - 1)]
-RngElem(i, j) == Rng(i).lo + (Rng(i).step * j)
-RngSet(i) == {RngElem(i, j) : j \in 0..(Rng(i).size - 1)}
-TrueSp(i) == CASE i.api = "random_max" -> SmpIntegerRandom(i.p1, FALSE)
-               [] i.api = "random_exact" -> SmpIntegerRandom(i.p1, TRUE)
-               [] i.api = "random_range" -> SmpIntegerRandomRange(i.p2 - i.p1)
-               [] i.api = "random_range_excl" -> SmpIntegerRandomRange((i.p2 - 1) - i.p1)
-               [] i.api = "getrandbits" -> SmpGetrandbits(i.p1)
-               [] i.api \in {"randrange", "randint", "choice"} -> SmpRandrange(NumChoices(i))
-               [] i.api = "getRandomInteger" -> SmpGetRandomInteger(i.p1)
-               [] i.api = "getRandomRange" -> SmpGetRandomRange((i.p2 - i.p1) - 1)
-               [] i.api = "getRandomNBitInteger" -> SmpGetRandomInteger(i.p1 - 1)
-Sp(i) == IF Biased THEN SmpModuloVariant(TrueSp(i)) ELSE TrueSp(i)
-\* result of the function from the accepted candidate value c
-Res(i, c) == IF Biased THEN RngElem(i, c % Rng(i).size)
-             ELSE CASE i.api \in {"random_max", "random_exact", "getrandbits", "getRandomInteger", "choice"} -> c
-                    [] i.api \in {"random_range", "random_range_excl", "getRandomRange", "randint"} -> i.p1 + c
-                    [] i.api = "randrange" -> i.p1 + (i.p3 * c)
-                    [] i.api = "getRandomNBitInteger" -> c + 2 ^ (i.p1 - 1)         \* value | 2^(N-1), value < 2^(N-1)
+\* ------------------------------------------------------------------ instance -> sampler, result, documented range (obj/Sampler)
+Rng(i) == SmpRng(i)
+Sp(i) == IF Biased THEN SmpModuloVariant(SmpSpOf(i)) ELSE SmpSpOf(i)
+RngElem(i, j) == SmpRngElem(i, j)
+RngSet(i) == SmpRngSet(i)
+Res(i, c) == IF Biased THEN RngElem(i, c % Rng(i).size) ELSE SmpRes(i, c)
 NB(i) == SmpNBytes(Sp(i).bits)
 -----------------------------------------------------------------------------
 Draws(n) == [1..n -> 0..(BB - 1)]
@@ -103,6 +76,13 @@ UniformOf(i, outs) ==
       /\ \A j \in 1..size : h[j] = h[1]                    \* (b) every value of the range has the same number of accepting draws
       /\ h[0] + (size * h[1]) = Len(outs)
 \* ------------------------------------------------------------------ spec -> code: the plan of each instance
+\* boundary tapes for cryptographic sizes, described symbolically (one word per attempt; concretised by the recorder for the real
+\* bound: "bound" = norm_maximum, "ones" = all bits set, a trailing * = the bits above the significant ones are set as well,
+\* i.e. the mask has work to do).  Judged, once concrete, by the same machine in trace/SamplerTrace.
+BoundaryTapes == {<<"zero">>, <<"one">>, <<"ones", "zero">>, <<"bound">>, <<"bound*">>, <<"bound-1">>, <<"bound+1", "bound">>, <<"bound+1*", "bound-1*">>,
+                  <<"ones", "bound+1", "bound">>, <<"ones*", "ones", "ones", "zero*">>, <<"half">>, <<"random">>, <<"random*", "random", "random">>}
+BitTapes == {<<"zero">>, <<"ones">>, <<"zero*">>, <<"ones*">>, <<"one">>, <<"half">>, <<"half*">>, <<"random">>, <<"random*">>}
+EmitBoundary == (EmitPlans /\ lvl = 0) => PrintT(<<"BTAPES", ToJson([range |-> BoundaryTapes, bits |-> BitTapes])>>)
 Spread(s) == LET n == Len(s) IN IF n <= 24 THEN s ELSE [k \in 1..24 |-> IF k <= 8 THEN s[k] ELSE IF k > 16 THEN s[n - (24 - k)] ELSE s[((k - 8) * n) \div 9]]
 Plan(i, outs) ==
            LET rej == SetToSortSeq({x - 1 : x \in {y \in 1..Len(outs) : outs[y] = 0}}, <)
